@@ -52,6 +52,7 @@ func (id ident) slot() string { return fmt.Sprintf("s%d/%v/p%d", id.secret, id.t
 type entry struct {
 	id    ident
 	valid bool
+	born  time.Time // virtual instant at which the slot was first tracked (duplicates do not refresh it)
 }
 
 type probe struct {
@@ -111,7 +112,7 @@ func (in *inst) Apply(op int) (string, string) {
 			return "track-error", err.Error()
 		}
 		if _, ok := in.model[id.slot()]; !ok {
-			in.model[id.slot()] = &entry{id: id}
+			in.model[id.slot()] = &entry{id: id, born: vsched.VNow()}
 			in.regs[id.slot()] = r
 		}
 	case "validate":
@@ -119,7 +120,7 @@ func (in *inst) Apply(op int) (string, string) {
 		in.rm.AddRegistration(r)
 		e, ok := in.model[id.slot()]
 		if !ok {
-			e = &entry{id: id}
+			e = &entry{id: id, born: vsched.VNow()}
 			in.model[id.slot()] = e
 			in.regs[id.slot()] = r
 		}
@@ -129,6 +130,22 @@ func (in *inst) Apply(op int) (string, string) {
 		in.rm.RemoveOldRegistrations()
 		in.model = map[string]*entry{}
 		in.regs = map[string]*lib.DecoyRegistration{}
+	case "age6m":
+		// six more minutes, then a sweep: only what is older than the 10 minute unused lifetime goes
+		vsched.ManualAdvance(6 * time.Minute)
+		in.rm.RemoveOldRegistrations()
+		now := vsched.VNow()
+		for k, e := range in.model {
+			if now.Sub(e.born) > 10*time.Minute {
+				delete(in.model, k)
+				delete(in.regs, k)
+			}
+		}
+	}
+	// connection handlers look registrations up all the time: every history is implicitly interleaved with a lookup
+	// on every phantom after every operation (whatever a lookup caches or memoises is then in place)
+	for _, ph := range phantoms {
+		_ = in.rm.GetRegistrations(net.IP(ph))
 	}
 	return "", ""
 }
@@ -136,7 +153,7 @@ func (in *inst) Apply(op int) (string, string) {
 func (in *inst) Key() string {
 	var ks []string
 	for k, e := range in.model {
-		ks = append(ks, fmt.Sprintf("%s=%s:%v", k, e.id.name, e.valid))
+		ks = append(ks, fmt.Sprintf("%s=%s:%v:%dm", k, e.id.name, e.valid, int(vsched.VNow().Sub(e.born)/time.Minute)))
 	}
 	sort.Strings(ks)
 	return strings.Join(ks, " ") + "\n" + in.rm.VerifDumpFull() + "\n" + in.rm.VerifDumpAges(vsched.VNow())
@@ -305,7 +322,7 @@ func main() {
 	for _, id := range ids {
 		ops = append(ops, "track:"+id.name, "validate:"+id.name)
 	}
-	ops = append(ops, "expire")
+	ops = append(ops, "expire", "age6m")
 	buildMenu(a.Thorough())
 	sys := &vbfs.System{OpNames: ops, New: func() vbfs.Instance { return newInst(ids, ops) }, OnNewState: probeState}
 	if a.Replay != "" {
@@ -339,6 +356,33 @@ func main() {
 		}
 	}
 	res := vbfs.Run(vbfs.Config{Depth: depth, Deadline: a.Deadline(), FirstOps: first}, sys)
+	// the same search from a non-initial state: another client's validated registration already sits on phantom 1 and
+	// is six minutes old (it will expire while registrations tracked from now on stay)
+	seedOps := []string{"track:s2.min.p1", "validate:s2.min.p1", "age6m"}
+	sys2 := &vbfs.System{OpNames: ops, OnNewState: probeState, New: func() vbfs.Instance {
+		in := newInst(ids, ops)
+		for _, so := range seedOps {
+			for i, o := range ops {
+				if o == so {
+					in.Apply(i)
+				}
+			}
+		}
+		return in
+	}}
+	res2 := vbfs.Run(vbfs.Config{Depth: depth, Deadline: a.Deadline(), FirstOps: first}, sys2)
+	res.States += res2.States
+	res.Transitions += res2.Transitions
+	if !res2.Exhaustive {
+		res.Exhaustive, res.Cap = false, res2.Cap
+	}
+	for k, n := range res2.ViolCounts {
+		res.ViolCounts[k] += n
+	}
+	for _, v := range res2.Violations {
+		v.History = append(append([]string{}, seedOps...), v.History...)
+		res.Violations = append(res.Violations, v)
+	}
 	o := &vh.Out{Name: fmt.Sprintf("bfs:shard%d/%d", a.ShardI, a.ShardN), Evaluations: res.States * int64(len(menu)*len(phantoms)), Nontrivial: res.States, States: res.States, Transitions: res.Transitions, Traces: res.Transitions,
 		Exhaustive: res.Exhaustive, Cap: res.Cap, WallS: res.WallS, ViolCounts: res.ViolCounts,
 		Extra: map[string]any{"depth_completed": res.DepthCompleted, "alphabet": ops, "probe_menu": len(menu), "phantoms": len(phantoms), "obfs4_maxlen_flight_found": !maxlenMissing, "obfs4_maxlen_search_s": maxlenSearch.Seconds()}}
